@@ -754,6 +754,13 @@ func c10CloseDuringBurst(w *W) {
 	what := []string{"socket", "listener"}[w.Choose(simrt.SShape, 2)]
 	slow := time.Duration(1+w.Choose(simrt.SShape, 8)) * time.Millisecond
 	after := time.Duration(w.Choose(simrt.SShape, 14)) * 500 * time.Microsecond
+	if w.Choose(simrt.SShape, 3) == 0 {
+		// the close comes at the very instant an Attaching callback returns and
+		// the rest of that connection's admission runs (the accept loop takes
+		// the connections one after the other, each callback lasting `slow`)
+		after = time.Duration(1+w.Choose(simrt.SShape, npeers)) * slow
+		w.SetShape("close_as_a_callback_returns", true)
+	}
 	w.SetShape("kind", kind)
 	w.SetShape("tran", tran)
 	w.SetShape("peers", npeers)
@@ -821,4 +828,5 @@ func c10CloseDuringBurst(w *W) {
 
 func init() {
 	register(&Scenario{Name: "close-during-connection-burst", Prop: "C10", Horizon: time.Hour, Weight: 60, Run: c10CloseDuringBurst})
+	register(&Scenario{Name: "close-during-connection-burst-lifecycle", Prop: "C13", Horizon: time.Hour, Weight: 15, Run: c10CloseDuringBurst})
 }
